@@ -164,11 +164,12 @@ impl Variant {
                     return i;
                 }
 
+                // a value beyond i64::MAX is the largest integer, not a negative one
                 let int_value = self.string_value.parse::<usize>();
                 match int_value {
-                    Ok(i) => i as i64,
+                    Ok(i) => i64::try_from(i).unwrap_or(i64::MAX),
                     _ => match parse_filesize(&self.string_value) {
-                        Some(size) => size as i64,
+                        Some(size) => i64::try_from(size).unwrap_or(i64::MAX),
                         _ => match self.string_value.parse::<f64>() {
                             Ok(f) => f as i64,
                             _ => 0,
